@@ -130,7 +130,8 @@ func main() {
 	}
 	v.known = map[string]KnownFinding{}
 	for _, k := range kfs {
-		if k.Status == "known" && k.Property == cfg.Property {
+		// a finding is identified by its obligation; the same function may be under contract for several properties
+		if k.Status == "known" {
 			v.known[k.Obligation] = k
 		}
 	}
